@@ -2362,6 +2362,7 @@ _g_ir_node_build_typelib (GIrNode         *node,
 	    blob->size = 4;
 	    *(gint32*)&data[blob->offset] = (gint32) parse_int_value (constant->value);
 	    break;
+	  case GI_TYPE_TAG_UNICHAR:
 	  case GI_TYPE_TAG_UINT32:
 	    blob->size = 4;
 	    *(guint32*)&data[blob->offset] = (guint32) parse_uint_value (constant->value);
